@@ -58,6 +58,10 @@ def _verify_c(job):
         confirmed = False
         n_replays = 0
         order = sorted(range(len(obs)), key=lambda q: 0 if obs[q].status == "failed" else 1)
+        t_open = time.time()
+        budget = 150 if tier == "quick" else 1200
+        n_open_done = 0
+        have_finst = False
         for q in order:
             ob = obs[q]
             if ob.status == "discharged":
@@ -66,6 +70,12 @@ def _verify_c(job):
             recs[q] = rec
             if ob.status == "unknown" and confirmed:
                 continue
+            if ob.status == "unknown" and (time.time() - t_open > budget or (have_finst and n_open_done >= 3)):
+                # the time budget for open obligations of this function is spent (or a counter-model of the
+                # instantiated VC is already in hand): the rest stay `unknown`
+                ob.output += "; not retried (per-function budget)"
+                continue
+            n_open_done += 1
             # cheap first: a counter-model (the solver's, or of the finitely instantiated VC) replayed on the real code
             if n_replays < 4 and not confirmed:
                 n_replays += 1
@@ -76,6 +86,8 @@ def _verify_c(job):
                         ob.status = "failed"
                         ob.output += "; refuted by concrete replay"
                     continue
+            if rec.get("finst_sat"):
+                have_finst = True
             if ob.status == "unknown":
                 # no replayed refutation: spend the full solver budget (conjunct by conjunct, cvc5, portfolio)
                 solve.discharge2(ob, tmo if not rec.get("finst_sat") else min(tmo, 10))
